@@ -1,6 +1,7 @@
 ################################################################################
 # © Copyright 2022 Zapata Computing Inc.
 ################################################################################
+import os
 import copy
 import json
 import math
@@ -304,7 +305,7 @@ def load_measurement_outcome_distribution(file: str) -> MeasurementOutcomeDistri
     Returns:
         object: a python object loaded from the measurement_outcome_distribution
     """
-    if isinstance(file, str):
+    if isinstance(file, (str, bytes, os.PathLike)):
         with open(file, "r") as f:
             data = json.load(f)
     else:
@@ -331,7 +332,7 @@ def load_measurement_outcome_distributions(
         A list of measurement outcome distributions loaded
          from the measurement_outcome_distribution
     """
-    if isinstance(file, str):
+    if isinstance(file, (str, bytes, os.PathLike)):
         with open(file, "r") as f:
             data = json.load(f)
     else:
